@@ -25,6 +25,7 @@ import (
 	"fmt"
 	"io"
 	"log"
+	"math"
 	"math/rand"
 	"net/http"
 	"net/url"
@@ -39,6 +40,10 @@ import (
 )
 
 const maxJitter = 250 * time.Millisecond
+
+// maxRetryAfterSeconds is the longest Retry-After delay, in seconds, that a
+// time.Duration can hold; longer delays are clamped to it.
+const maxRetryAfterSeconds = int64(math.MaxInt64 / time.Second)
 
 type backoffer interface {
 	// set adjusts/increases the current backoff interval (typically on retryable failure);
@@ -323,15 +328,24 @@ func (c *JSONClient) PostAndParseWithRetry(ctx context.Context, path string, req
 				fallthrough
 			case http.StatusTooManyRequests:
 				var backoff *time.Duration
-				// Retry-After may be either a number of seconds as a int or a RFC 1123
+				// Retry-After may be either a number of seconds as a int or an HTTP
 				// date string (RFC 7231 Section 7.1.3)
 				if retryAfter := httpRsp.Header.Get("Retry-After"); retryAfter != "" {
-					if seconds, err := strconv.Atoi(retryAfter); err == nil {
-						b := time.Duration(seconds) * time.Second
+					if seconds, err := strconv.Atoi(retryAfter); err == nil || errors.Is(err, strconv.ErrRange) {
+						// Clamp the delay so that the conversion cannot overflow (for a
+						// number beyond int, Atoi has returned the largest int).
+						b := time.Duration(min(max(int64(seconds), -maxRetryAfterSeconds), maxRetryAfterSeconds)) * time.Second
 						backoff = &b
-					} else if date, err := time.Parse(time.RFC1123, retryAfter); err == nil {
-						b := time.Until(date)
-						backoff = &b
+					} else {
+						// An HTTP date comes in one of three formats, and a recipient
+						// has to accept them all (RFC 7231 Section 7.1.1.1).
+						for _, layout := range []string{time.RFC1123, time.RFC850, time.ANSIC} {
+							if date, err := time.Parse(layout, retryAfter); err == nil {
+								b := time.Until(date)
+								backoff = &b
+								break
+							}
+						}
 					}
 				}
 				wait := c.backoff.set(backoff)
